@@ -212,6 +212,23 @@ Theorem C02_known_hosts : forall lib hosts blob comment k,
 Proof. exact known_hosts_shown. Qed.
 Print Assumptions C02_known_hosts.
 
+(* a known_hosts file of any number of lines: the entries listed are, in order, exactly those each
+   line has when it is the only line of the file (its own hosts, key facts and comment - nothing is
+   carried from one line to another), and the file is refused iff one of its lines is *)
+Theorem C02_known_hosts_file : forall fixed ls i,
+  ssh_known_hosts_file fixed ls = Ok i ->
+  i_desc i = bs "SSH known_hosts" /\ i_attrs i = [] /\
+  exists is, Forall2 (fun ol one => ssh_known_hosts_one fixed (fst ol) (snd ol) = Ok one) ls is /\
+             i_children i = flat_map i_children is.
+Proof. exact known_hosts_file_each_line. Qed.
+Print Assumptions C02_known_hosts_file.
+
+Theorem C02_known_hosts_file_accepted : forall fixed ls,
+  (exists i, ssh_known_hosts_file fixed ls = Ok i) <->
+  Forall (fun ol => exists one, ssh_known_hosts_one fixed (fst ol) (snd ol) = Ok one) ls.
+Proof. exact known_hosts_file_error. Qed.
+Print Assumptions C02_known_hosts_file_accepted.
+
 (* ---------- no private component is displayed ---------- *)
 
 (* structurally: the describers only ever receive public components (type pubkey of Model/Keys.v has no
